@@ -376,6 +376,7 @@ def generate(u, repo, specs_dir, twin_of=None, extra="", prelets=None, inline=No
             item.inline_helpers(repo, inline, it["steps"])
         contracted = apply_edits(item, it["edits"], twin_false=(twin_of == idx), prelets=(prelets or {}).get(idx))
         item.normalise_wild_closure_params()
+        item.drop_plain_logs()
         cur = "".join(out)
         start_line = cur.count("\n") + 1
         out.append("// ---- extracted: %s :: %s (lines %d-%d)\n" % (it["relpath"], item.path, item.line, item.end_line))
